@@ -232,9 +232,11 @@ class _GenerateRenderMethod:
         self.printer.writeline("_modified_time = %r" % time.time())
         self.printer.writeline("_enable_loop = %r" % self.compiler.enable_loop)
         self.printer.writeline(
-            "_template_filename = %r" % self.compiler.filename
+            # (ascii: the module file is written in the template's encoding,
+            # which need not have the characters of its path)
+            "_template_filename = %a" % self.compiler.filename
         )
-        self.printer.writeline("_template_uri = %r" % self.compiler.uri)
+        self.printer.writeline("_template_uri = %a" % self.compiler.uri)
         self.printer.writeline(
             "_source_encoding = %r" % self.compiler.source_encoding
         )
